@@ -274,7 +274,11 @@ func (p *Pat) Match(t *Term, b Binds) bool {
 	case "cap":
 		return t.K == TCap && p.Sub[0].Match(t.Sub[0], b)
 	case "cur":
-		return t.K == TVar && len(t.Sub) == 1 && p.Sub[0].Match(t.Sub[0], b)
+		if t.K == TVar && len(t.Sub) == 1 {
+			return p.Sub[0].Match(t.Sub[0], b)
+		}
+		// a field the function never stores is rendered as the plain place: that is its current value
+		return t.K == TField && p.Sub[0].Match(t, b)
 	case "ok":
 		return t.K == TOk && p.Sub[0].Match(t.Sub[0], b)
 	case "assert":
